@@ -229,11 +229,27 @@ def make_iter_models(index):
                 return ordering("Greater")
         return ordering("Equal" if len(x) == len(y) else ("Less" if len(x) < len(y) else "Greater"))
 
+    def m_swap(ex, st, args, callee, ty):
+        a, b = args
+        va, vb = _obj(ex, st, a), _obj(ex, st, b)
+        if hasattr(va, "chars") and hasattr(vb, "chars"):
+            va.chars, vb.chars = vb.chars, va.chars  # text buffers are mutable model objects: swap their contents
+            return UNIT
+        for dst, new in ((a, vb), (b, va)):
+            if isinstance(dst, Ref):
+                ex._write(st, dst.depth, dst.local, dst.proj, new)
+            elif isinstance(dst, BoxRef):
+                dst.obj = new
+            else:
+                raise Unsupported("mem::swap through %r" % (dst,))
+        return UNIT
+
     def m_opt_or(ex, st, args, callee, ty):
         return args[0] if args[0].variant == 1 else args[1]
 
     return [
         (rx(r"^Option::<.*>::or$"), m_opt_or),
+        (rx(r"^(?:std|core)::mem::swap::<.*>$"), m_swap),
         (rx(r"^<Option<&(?:std::ffi::)?OsStr> as (?:Partial)?Ord>::cmp$"), m_cmp_opt_text),
         (rx(r"^<Vec<.*> as DerefMut>::deref_mut$"), lambda ex, st, args, callee, ty: _recv(args[0])),
         (rx(r"^<Vec<.*> as IntoIterator>::into_iter$"), m_vec_into_iter),
